@@ -144,8 +144,13 @@ def e3_capacity(F, R, M, add_id, rule='E3', rule1='E1'):
                                 for disc, (kind, vals), _ in p.conds:
                                     # stop at conditions that depend on results of the submission helpers
                                     if derives_from(disc, lambda x: x[0] == 'call' and x[2] in F.bodies):
+                                        if p.panicked:
+                                            ok = False
                                         break
                                     if derives_from(disc, lambda x: x[0] == 'load0' and x[1][2] and x[1][2][-1][1] not in (ctr,) + tuple(bool_fields)):
+                                        if p.panicked:
+                                            ok = False
+                                            break
                                         continue
                                     v = fo.ev(disc)
                                     if (kind == 'in' and v not in vals) or (kind != 'in' and v in vals):
